@@ -1,3 +1,7 @@
 SPECIFICATION Spec
+CONSTANTS
+  NV = 1
+  MaxLen = 1
+  MaxItems = 1
 INVARIANTS WF Sane Inside Packed Emit
 CHECK_DEADLOCK FALSE
